@@ -225,6 +225,12 @@ func rangeMut(m map[K]V, kind, n int) {
 			}
 			m[key(8000)] = val(8000)
 			inserted = append(inserted, 8000)
+			// an entry 8000 yielded before the clear is gone; the one just created is a new entry and may be produced
+			for i, y := range yielded {
+				if y == 8000 {
+					yielded[i] = -8000
+				}
+			}
 		}
 	}
 	// every entry present for the whole loop must have been yielded exactly once
